@@ -120,3 +120,18 @@ package keyproof
 //@   loop 0 invariant 2 <= i && i <= minimumFactor && rem(val(N), 8) == 5 && forall f in 2..i :: gcd(val(N), f) == 1
 //@   loop 0 modifies onlyfresh("BV")
 //@   mustfail canary: !result
+
+//@ # structure check of the range proofs inside a key proof: exactly the results the structure asks for, each a full list without nil entries
+//@ func (*rangeProofStructure).verifyProofStructure
+//@   property C17
+//@   safety
+//@   requires s != nil
+//@   ensures[C17] nounknown: result ==> forall name in dom(proof.Results) :: exists j in 0..len(s.RepresentationProofStructure.Rhs) :: s.RepresentationProofStructure.Rhs[j].Secret == name
+//@   ensures[C17] complete: result ==> forall j in 0..len(s.RepresentationProofStructure.Rhs) :: in(proof.Results, s.RepresentationProofStructure.Rhs[j].Secret) && len(proof.Results[s.RepresentationProofStructure.Rhs[j].Secret]) == rangeProofIters && forall i in 0..rangeProofIters :: proof.Results[s.RepresentationProofStructure.Rhs[j].Secret][i] != nil
+//@   modifies nothing
+//@   loop 0 invariant 0 <= $i && $i <= len(s.RepresentationProofStructure.Rhs) && known != nil && fresh(known) && (forall j in 0..$i :: in(known, s.RepresentationProofStructure.Rhs[j].Secret)) && forall name in dom(known) :: exists j in 0..$i :: s.RepresentationProofStructure.Rhs[j].Secret == name
+//@   loop 0 modifies mapof(known)
+//@   loop 1 invariant forall name in dom(proof.Results) :: seen(name) ==> in(known, name)
+//@   loop 2 invariant 0 <= $i && $i <= len(s.RepresentationProofStructure.Rhs) && forall j in 0..$i :: in(proof.Results, s.RepresentationProofStructure.Rhs[j].Secret) && len(proof.Results[s.RepresentationProofStructure.Rhs[j].Secret]) == rangeProofIters && forall i in 0..rangeProofIters :: proof.Results[s.RepresentationProofStructure.Rhs[j].Secret][i] != nil
+//@   loop 3 invariant 0 <= $i && $i <= len(rlist) && forall i in 0..$i :: rlist[i] != nil
+//@   mustfail canary: !result
